@@ -247,7 +247,7 @@ V_CrossRun(failed) ==
           \cup If(mon.finalObs.draws # pr.finalDraws, "replay_differs")
      ELSE {})
     \* -rapid.seed=<printed seed>: the very first test case is the originally failing one
-    \cup (IF runinfo.expect = "seed_prev"
+    \cup (IF runinfo.expect = "seed_prev" /\ pr.rep.hasseed      \* (a report that prints no seed promises nothing)
      THEN If(~(Len(runlog) > 0 /\ runlog[1][1] = "gen" /\ runlog[1][3] = pr.failDraws /\ runlog[1][4] \in {"stop", "panic"}), "seed_replay_differs")
           \cup If(~(rep.kind = pr.rep.kind /\ (rep.valid = 0 \/ rep.kind = "flaky")), "seed_replay_differs")
      ELSE {})
